@@ -1,6 +1,8 @@
 """Correspondence suites: each produces operation lines, compares implementation and model outputs, and evaluates the
 property oracle directly on the implementation's output (independent of the Lean model)."""
-import json, re, struct
+import json, re, struct, sys
+if hasattr(sys, "set_int_max_str_digits"):
+    sys.set_int_max_str_digits(0)      # literals of thousands of digits are compared as exact integers
 from fractions import Fraction
 import gens, mpack
 from gens import parse_tree, show_tree, num_value
@@ -887,9 +889,13 @@ class JsonAnySuite(Suite):
                 texts.append(bytes(rng.choice(b'[]{},:"\'\\ tfn0123456789.eE+-/*\x00\n\xc3') for _ in range(rng.randrange(0, 14))))
             else:
                 texts.append(bytes(rng.getrandbits(8) for _ in range(rng.randrange(0, 12))))
+        if self.cfg.get("STRING_LENGTH_SIZE", 2) == 2:
+            # strings and keys - quoted, single-quoted and UNQUOTED - at and beyond the longest storable length (the value-level model has its own limit test)
+            for k in (65535, 65536, 66000):
+                texts += [b"{" + b"k" * k + b":1}", b'{"' + b"k" * k + b'":1}', b"'" + b"s" * k + b"'", b'[1,{a:2,' + b"Z" * k + b':[3]}]']
         cases = []
         for i, t in enumerate(texts):
-            lim = rng.choice([10, 10, 10, 0, 1, 2, 3, 255])
+            lim = rng.choice([10, 10, 10, 0, 1, 2, 3, 255]) if len(t) < 60000 else 10
             cases.append(Case("jsonde %d 0 %d %s" % (cb, lim, hx(t)), text=t, lim=lim, rk=0, gid=i))
             if i % 7 == 0:
                 # source independence: the same bytes through other reader kinds
@@ -1134,10 +1140,11 @@ class FilterSuite(Suite):
         return cases
 
     def canon_h(self, case, h):
-        return " ".join(x for x in h.split(" ") if not x.startswith("req"))
+        f = [x for x in h.split(" ") if not x.startswith("req")]
+        return " ".join(MpDeSuite.nan_tree(f) if case.meta["fmt"] in ("m", "mu") else f)
 
     def canon_m(self, case, m):
-        return m
+        return " ".join(MpDeSuite.nan_tree(m.split(" "))) if case.meta["fmt"] in ("m", "mu") else m
 
     def oracle(self, case, h):
         o = Suite.oracle(self, case, h)
@@ -1772,6 +1779,38 @@ class MpDocSuite(JsonDocSuite):
         for c in cases:
             c.line += sfx
         return cases
+
+class MpDocFSuite(JsonDocSuite):
+    """slot-level tie of the FILTERED deserializeMsgPack (model AJ/Model/MDDF.lean): (filter, bytes) pairs from the filter suite's generators plus
+    objects with long and repeated keys and skipped nested objects (EVERY key goes through the string buffer, kept or not), into an empty or a
+    used document, without and with allocation failures: code, document, bytes consumed, overflowed flag AND the allocator log are compared
+    with the model; same independent checks as the unfiltered suite"""
+    name = "mpdocf"
+
+    def generate(self, rng, tier):
+        n = getattr(self, "n", 1500 if tier == "quick" else 120000)
+        cases = []
+        fails = ["-"] + ["a%d" % k for k in range(1, 13)] + ["f%d" % k for k in range(1, 7)]
+        fixed = [(b'{"a":true}', "82a16101a16202"), (b'{"a":true}', "82a16201a16192a3616263a3616263"), (b'{"a":true}', "82d920" + "62" * 32 + "81a1610581a16102a16103"),
+                 (b'[{"k":true}]', "9382a16b01a1780281a178030582a16ba16ba16ba178"), (b'{"a":{"b":true}}', "82a16182a1629201a173a163a7736b6970706564a16481a16201"),
+                 (b'true', "81a1619301a361626381a16b02"), (b'false', "81a1619301a361626381a16b02"), (b'null', "9201"), (b'{"a":true}', "930102" "81a16101"), (b'[true]', "81a16101"),
+                 (b'{"a":true}', "82a162c403010203a161c70301616263"), (b'{"a":[true]}', "81a1619201"), (b'{"a":true}', "82a16281a163d9ff" + "61" * 10), (b'{"a":true}', "82a1629a9a9a9a9a9a9a9a9a9a9a01a16101")]
+        for flt, hexs_ in fixed:
+            for pre in (0, 1):
+                for f in fails:
+                    cases.append(Case("mpdocf 10 %d %s %s %s" % (pre, f, hx(flt), hexs_), text=bytes.fromhex(hexs_), fail=f))
+        fs = FilterSuite(cfg=self.cfg)
+        fs.n = 4 * n
+        src = [c for c in fs.generate(rng, tier) if c.meta.get("fmt") == "m"][:n]
+        for c in src:
+            t, flt = c.meta["text"], c.meta["flt"]
+            f = rng.choice(fails) if rng.random() < 0.6 else "-"
+            cases.append(Case("mpdocf %d %d %s %s %s" % (c.meta["lim"], rng.choice([0, 0, 1]), f, hx(flt), hx(t) if t else "-"), text=t, fail=f))
+        sfx = geo_suffix(self.cfg)
+        for c in cases:
+            c.line += sfx
+        return cases
+
 
 # ================================================================================================ C16: streams
 class StreamSuite(Suite):
